@@ -283,6 +283,28 @@ def replicate (env : Env ν) (k d : Nat) (p : Genome ν) (muts : List (Nat × ν
   | .ok c k' d' =>
     if p.rate then randomPass env k' d' c (c.genes.map (·.name)) else .ok c k' d'
 
+/-! ### value OBJECTS: identity, sharing, in-place mutation
+
+The model is polymorphic in the value type and never inspects or builds a value, so it can be read with `ν := Nat` =
+the IDENTITY of the Python object stored as a gene's value.  Under that reading the gene tables, the log (`orig`,
+`new`) and the results of `express` / `get_value` hold REFERENCES, and two entries with the same reference are the same
+object — which is what the code does: `replicate` hands the parent's own `Gene` objects to the child's constructor,
+`mutate` logs the old value object itself, `express` / `get_value` / `get_gene` / `export` return the stored object.
+The CONTENT of the objects is a heap `H`; no API operation has access to it.  A caller that mutates a handed-out object
+in place (`g.get_gene("l").value.append(3)`) is `poke`. -/
+
+/-- what `get_gene` / `export` / `get_hash` show when the objects have content `H` -/
+def view {κ : Type} (H : Nat → κ) (g : Genome Nat) : List (Nat × κ) := (table g).map fun p => (p.1, H p.2)
+
+/-- what `get_hash` digests -/
+def canonView {κ : Type} (H : Nat → κ) (g : Genome Nat) : List (Nat × κ) := (canon g).map fun p => (p.1, H p.2)
+
+/-- in-place mutation of the object with identity `r` -/
+def poke {κ : Type} (H : Nat → κ) (r : Nat) (c : κ) : Nat → κ := fun r' => if r' = r then c else H r'
+
+/-- the genome's gene table holds the object `r` -/
+def holds (g : Genome Nat) (r : Nat) : Bool := g.genes.any (·.value == r)
+
 /-! ### vocabulary of the source translation (Operon/Gen/GenomeTranslated.lean is generated from genome.py) -/
 
 /-- `d[key] = x` with an explicit key (the translation does not assume that a gene is stored under its own name) -/
